@@ -49,6 +49,10 @@ pub enum PsOp {
     BadSub,
     /// open/create the same service again with a deviating requirement (side a|b, kind)
     Probe(bool, usize),
+    /// drop a port in the middle of the program (loans / borrowed samples it handed out stay
+    /// alive, undelivered samples stay queued) and create a new one
+    RecyclePub(usize),
+    RecycleSub(usize),
 }
 
 pub const NPROBE: usize = 9;
@@ -141,8 +145,8 @@ pub fn gen_cfg(rng: &mut Rng) -> PsCfg {
     }
 }
 
-pub const MAX_PUBS: usize = 3;
-pub const MAX_SUBS: usize = 4;
+pub const MAX_PUBS: usize = 5;
+pub const MAX_SUBS: usize = 6;
 
 pub fn gen_ops(cfg: &PsCfg, rng: &mut Rng, maxops: usize) -> Vec<PsOp> {
     let n = 6 + rng.below(maxops.max(7) - 6);
@@ -160,8 +164,8 @@ pub fn gen_ops(cfg: &PsCfg, rng: &mut Rng, maxops: usize) -> Vec<PsOp> {
         }
     };
     // publisher 0 is used most of the time; others only exist after an ExtraPub
-    let pubi = |rng: &mut Rng| if rng.chance(75) { 0 } else { rng.below(MAX_PUBS) };
-    let subi = |rng: &mut Rng| if rng.chance(80) { rng.below(cfg.nsubs) } else { rng.below(MAX_SUBS) };
+    let pubi = |rng: &mut Rng| if rng.chance(60) { 0 } else { rng.below(MAX_PUBS) };
+    let subi = |rng: &mut Rng| if rng.chance(65) { rng.below(cfg.nsubs) } else { rng.below(MAX_SUBS) };
     for _ in 0..n {
         let r = rng.below(100);
         let op = if r < 20 {
@@ -182,10 +186,14 @@ pub fn gen_ops(cfg: &PsCfg, rng: &mut Rng, maxops: usize) -> Vec<PsOp> {
             PsOp::Has(subi(rng))
         } else if r < 87 {
             PsOp::Update(pubi(rng))
-        } else if r < 90 {
+        } else if r < 89 {
             PsOp::ExtraPub
-        } else if r < 93 {
+        } else if r < 91 {
             PsOp::ExtraSub
+        } else if r < 92 {
+            PsOp::RecyclePub(pubi(rng))
+        } else if r < 93 {
+            PsOp::RecycleSub(subi(rng))
         } else if r < 94 {
             PsOp::BadSub
         } else if r < 98 {
@@ -302,6 +310,40 @@ pub fn run_mode(mode: &str, a: Api, b: Api, cfg: &PsCfg, ops: &[PsOp], case: usi
                         }
                     };
                     line(format!("extrasub {:?}", hr).replace(' ', ""), obs);
+                }
+                PsOp::RecyclePub(pi) => {
+                    let room = pubs.len() < MAX_PUBS;
+                    let obs = match pubs.get_mut(*pi) {
+                        Some(p) if p.alive() && room => {
+                            p.drop_port();
+                            match wa.make_pub(cfg) {
+                                Ok(n) => {
+                                    pubs.push(n);
+                                    format!("recreated as {}", pubs.len() - 1)
+                                }
+                                Err(e) => e,
+                            }
+                        }
+                        _ => "skip".into(),
+                    };
+                    line(format!("recyclepub {}", pi), obs);
+                }
+                PsOp::RecycleSub(i) => {
+                    let room = subs.len() < MAX_SUBS;
+                    let obs = match subs.get_mut(*i) {
+                        Some(sb) if sb.alive() && room => {
+                            sb.drop_port();
+                            match wb.make_sub(cfg, None) {
+                                Ok(n) => {
+                                    subs.push(n);
+                                    format!("recreated as {}", subs.len() - 1)
+                                }
+                                Err(e) => e,
+                            }
+                        }
+                        _ => "skip".into(),
+                    };
+                    line(format!("recyclesub {}", i), obs);
                 }
                 PsOp::BadSub => line("badsub".into(), wb.bad_sub(cfg)),
                 PsOp::Probe(side_a, kind) => {
